@@ -26,6 +26,8 @@ ERR_DROPPING_ADAPTORS = re.compile(r"^std::iter::Iterator::(flatten|filter_map|m
 TOLERATED = {
     ("content::write::make_mmap", "memmap2::MmapMut::map_mut", "ok"):
         "a failed mapping falls back to plain writes on the same temp file",
+    ("content::write::make_mmap", "memmap2::MmapMut::map_mut", "matched-and-dropped"):
+        "a failed mapping falls back to plain writes on the same temp file (after giving back the pre-allocated space)",
     ("content::read::has_content_async", "std::fs::metadata", "is_ok"):
         "exists-style predicate: the public API returns bool",
     ("content::write::AsyncWriter::close", "futures::futures_channel::oneshot::Sender::<T>::send", "unused"):
@@ -253,6 +255,7 @@ def resolve_cut(prog, body, local, path, at, _seen=None):
 def check_config(cfg, w, rep):
     prog = w.prog
     is_async = not cfg.startswith("sync")
+    _import_c02(cfg, w, rep)
     n_src = 0
     n_tol = 0
     for lf in prog.fns.values():
@@ -402,3 +405,17 @@ def discard_kind(prog, b, blk, t):
         if not frontier:
             break
     return "dropped"
+
+
+def _import_c02(cfg, w, rep):
+    """R4: a failing data write has no unaccounted partial effect on the staging file (reused C02 a)."""
+    from ..framework import Report
+    from . import c02
+    sub = Report("C02")
+    c02.check_config(cfg, w, sub)
+    for (c_, rule, k, desc, ok) in sub.obligations:
+        if rule in ("a-digest-sink", "a-whole-sink") and ok:
+            rep.ob(cfg, "R4/" + rule, k, desc)
+    for k, v in sub.violations.items():
+        if v.rule in ("a-digest-sink", "a-whole-sink"):
+            rep.violation("R4:%s" % k, v.msg, loc=v.loc, config=cfg, rule="R4/" + v.rule)
